@@ -430,7 +430,7 @@ def worker(ctx: Ctx):
         orig_record(case, res)
 
     ctx.record = record
-    hyp_run(ctx, gen_case(), run_case, 30 if q else 400, sub=0)
+    hyp_run(ctx, gen_case(), run_case, 45 if q else 400, sub=0)
     paths = [p for p in usable_shipped() if "uc7" not in p] if q else usable_shipped()
     hyp_run(ctx, shipped_case(paths), run_case, 6 if q else 100, sub=1)
     from ..harness import jhash
